@@ -13,6 +13,13 @@ fn decode_frame(frame: &[u8]) -> Result<lldppkt::LldpPacket, crate::pktparser::P
     lldppkt::LldpPacket::from_wire(&mut crate::pktparser::Buffer::new(pdu))
 }
 
+#[cfg(feature = "verif-hooks")]
+pub fn verif_decode_frame(
+    frame: &[u8],
+) -> Result<lldppkt::LldpPacket, crate::pktparser::ParseError> {
+    decode_frame(frame)
+}
+
 pub struct LldpService {
     sock: erbium_net::raw::RawSocket,
 }
